@@ -174,6 +174,12 @@ class Run:
             if kf["id"] not in known_printed:
                 known_printed.add(kf["id"])
                 print(f"KNOWN-FINDING: property={self.pid} {kf['id']} {kf['what']}")
+        # listed findings that no check of this run generates (recorded from reports, witness in known_findings.json) are printed as well:
+        # they suppress nothing, since no failure key can match them
+        for kf in self.known:
+            if kf.get("property") == self.pid and kf.get("status") == "open" and kf["id"] not in known_printed and str(kf.get("key", "")).startswith("(not generated"):
+                known_printed.add(kf["id"])
+                print(f"KNOWN-FINDING: property={self.pid} {kf['id']} {kf['what']}")
         seen = set()
         for key, path, tail in self.violations:
             if key in seen:
